@@ -12,6 +12,8 @@ for name in names:
         continue
     meta = json.load(open(os.path.join(d, "meta.json")))
     prop = meta["property"]
+    if meta.get("obsolete"):
+        rows.append((name, prop, "obsolete", meta["obsolete"][:160])); continue
     props = [prop] + meta.get("also_check", [])
     assert subprocess.run("git -C /repo status --porcelain", shell=True, capture_output=True, text=True).stdout == "", "/repo not clean"
     if subprocess.run(["git", "-C", "/repo", "apply", os.path.join(d, "patch.diff")]).returncode != 0:
@@ -29,8 +31,16 @@ for name in names:
     caught = any(x["exit"] == 1 for x in det)
     rows.append((name, prop, "caught" if caught else "MISSED", "; ".join("%s %s: %s" % (x["check"], x["tier"], ", ".join(x["signatures"][:3])) for x in det if x["exit"] == 1)))
     print(rows[-1], flush=True)
+old = {}
+if len(sys.argv) > 2 and os.path.exists("/verif/seeded/MATRIX.md"):
+    for ln in open("/verif/seeded/MATRIX.md").read().splitlines()[2:]:
+        f = [x.strip() for x in ln.strip("|").split("|")]
+        if len(f) >= 4:
+            old[f[0]] = tuple(f[:4])
+for r in rows:
+    old[r[0]] = r
 with open("/verif/seeded/MATRIX.md", "w") as fh:
     fh.write("| seed | property | result (%s tier) | signatures (first 3) |\n|---|---|---|---|\n" % tier)
-    for r in rows:
-        fh.write("| %s | %s | %s | %s |\n" % r)
-print("caught %d of %d" % (sum(1 for r in rows if r[2] == "caught"), len(rows)))
+    for k in sorted(old):
+        fh.write("| %s | %s | %s | %s |\n" % old[k])
+print("caught %d of %d (obsolete: %d)" % (sum(1 for r in rows if r[2] == "caught"), len(rows), sum(1 for r in rows if r[2] == "obsolete")))
